@@ -34,6 +34,14 @@ def urgent_filter(graph, drop=(), also=None):
     return graph
 
 
+def must_contain(behs, what, pred):
+    """Vacuity guard: the behaviours handed to the driver must contain the action a graph was built for."""
+    n = sum(1 for b in behs for st in b["steps"] if pred(st["a"]))
+    if n == 0:
+        raise vlib.Broken("vacuous replay: no behaviour contains %s (has the action dropped out of the specification's Next?)" % what)
+    return n
+
+
 def replay(v, binary, behs, variants, seed, what, timeout=1500, procs=16):
     total, steps, distinct = 0, 0, 0
     for var in variants:
